@@ -1,6 +1,7 @@
 package sio
 
 import (
+	"sync/atomic"
 	"time"
 
 	"github.com/karagenc/socket.io-go/internal/sync"
@@ -69,6 +70,9 @@ type (
 		// the parser's Add method from multiple goroutines.
 		parserMu sync.Mutex
 		parser   parser.Parser
+
+		// Incremented each time a connection ends. See `onParserFinish`.
+		connEpoch atomic.Uint64
 
 		noReconnection       bool
 		reconnectionAttempts uint32
@@ -235,7 +239,18 @@ func (m *Manager) onParserFinish(header *parser.PacketHeader, eventName string, 
 	}
 	// Events are handled one at a time, in the order they were received. So are the CONNECT
 	// packet that precedes them and the DISCONNECT packet that follows them.
-	socket.packetRunner.add(func() { socket.onPacket(header, eventName, decode) })
+	//
+	// A packet whose connection has ended before its turn came is dropped, like a packet
+	// that was still on its way. Otherwise, an event would wait in the receive buffer for the next
+	// connection, and if the session is recovered, the server sends it once more (it is past
+	// the last offset that the socket has seen): the handler would run twice for it.
+	epoch := m.connEpoch.Load()
+	socket.packetRunner.add(func() {
+		if m.connEpoch.Load() != epoch {
+			return
+		}
+		socket.onPacket(header, eventName, decode)
+	})
 }
 
 func (m *Manager) packet(packets ...*eioparser.Packet) {
@@ -305,6 +320,7 @@ func (m *Manager) cleanup() {
 func (m *Manager) onClose(reason Reason, err error) {
 	m.debug.Log("Closed. Reason", reason)
 
+	m.connEpoch.Add(1)
 	m.cleanup()
 	m.backoff.reset()
 
